@@ -414,6 +414,7 @@ func runC03(c *Ctx) {
 	c.rule("single-memo", "no member of the component creates a fresh copier (newDeepCopier / package-level deepCopyValue / realDeepCopy): a fresh memo forgets cycles and sharing", 1)
 	c.rule("copier-all-exported", "the struct handler descends into a field exactly when its name is exported (a reference in a field skipped for any other reason keeps pointing into the input graph)", 1)
 	c.rule("fresh-out-per-descent", "inside loops of the component, the output location passed to a descent is allocated in the same iteration (the memo stores output locations, so a reused temporary would be overwritten)", 1)
+	c.rule("value-recursion-guarded", "outside the copier, the places that follow config values through interface fields (Pointerify narrowing an interface field to its default's concrete type; the overlay merging two interface-held pointees of one type) consult a visited set keyed on the pointer followed, and the overlay dereferences its operand only where it is a pointer", 4)
 	c.rule("out-settable", "Ptr/Map payloads of interface values, and deepCopyValue, copy into an addressable temporary reflect.New(T).Elem() (the map handler honours its memo only for settable outputs)", 2)
 	c.rule("copier-fresh", "(shared with C02) references in the result are fresh: every exit of the pointer/map/slice handlers without fresh storage is explained by nil input / already-distinct output / unsettable output; interface payloads are re-boxed", 4)
 	c.rule("copier-elements-descend", "(shared with C02) every array/slice element and every map entry is visited", 2)
@@ -431,6 +432,7 @@ func runC03(c *Ctx) {
 	c02CopierFreshAll(c, cp)
 	c02ElementsDescend(c, cp, "copier-elements-descend")
 	c03OutSettable(c, cp, "out-settable")
+	c03ValueRecursion(c, "value-recursion-guarded")
 	for f := range cp.scc {
 		c.analysed(relName(f))
 	}
